@@ -132,6 +132,29 @@ def rule_failed_notice(ctx, rep):
             ok = ok and envs == [{"DEPS": True, "UPDATED": pol_want}]
         rep.check("R-FAILED-NOTICE", fn.qname, fn.loc(calls[0]) if calls else fn.loc(), ok, cname,
                   f"{cname} is not issued under the {'recorded' if pol_want else 'missing'} dependency update of this codemod id")
+    # completeness: whenever the codemod has dependencies, one of the two notices is issued on every path -- the plain notice iff the
+    # update was recorded, the failed notice otherwise (a further condition that suppresses the failed notice hides a dependency that
+    # was neither added nor announced)
+    from ..flow import FlowAnalysis
+    from ..logic import consistent_assignments
+
+    def ev(call):
+        la = last_attr(call.func)
+        return "EV:notice" if la == "build_dependency_notification" else ("EV:failed-notice" if la == "build_failed_dependency_notification" else None)
+
+    fa2 = FlowAnalysis(fn.node, ev)
+    silent = []
+    for ex in fa2.exits:
+        if ex.kind == "raise":
+            continue
+        for must, may in ex.state.parts:
+            for env in consistent_assignments(must, atom, ["DEPS", "UPDATED"]):
+                if env["DEPS"] and not env["UPDATED"] and (True, "EV:failed-notice") not in must:
+                    silent.append((ex, "failed notice missing although the update was not recorded"))
+                if env["DEPS"] and env["UPDATED"] and (True, "EV:notice") not in must:
+                    silent.append((ex, "dependency notice missing although the update was recorded"))
+    rep.check("R-FAILED-NOTICE", fn.qname, fn.loc(silent[0][0].node) if silent and silent[0][0].node is not None else fn.loc(), not silent, "every-dependency-announced",
+              "add_description can finish for a codemod with dependencies without either notice: " + (silent[0][1] if silent else ""))
     pd = ctx.prog.func(CTX + ".process_dependencies")
     stores_none = any(
         isinstance(n, ast.Assign) and isinstance(n.targets[0], ast.Subscript) and "_dependency_update_by_codemod" in unparse(n.targets[0]) and isinstance(n.value, ast.Constant) and n.value.value is None
@@ -191,6 +214,7 @@ def rule_shared(ctx, rep):
 
     sub = Report(rep.prop, rep.tier, quiet=True)
     c03.rule_newline(ctx, sub)
+    c03.rule_strict_decode(ctx, sub)
     c03.rule_diff_write(ctx, sub)
     c04.rule_thread(ctx, sub)
     c05.rule_enum_siblings(ctx, sub)
